@@ -68,7 +68,11 @@ pub fn run(ctx: &Ctx, rep: &mut Report) {
             rep.foreign("honest-approval-refused");
             continue;
         }
-        let users: Vec<Address> = (0..2).map(|_| u.principal()).collect();
+        // senders: two ordinary accounts, and the gateway's own role holders (whose word counts for
+        // nothing here: a sender is a sender)
+        let mut users: Vec<Address> = (0..2).map(|_| u.principal()).collect();
+        users.push(operator.clone());
+        users.push(owner.clone());
         let stranger = u.principal();
         let proxy = u.env.register(Proxy, ());
         u.skip_events();
